@@ -3719,6 +3719,23 @@ impl KotoVm {
         let representation = format_options.and_then(|options| options.representation);
         let rendered = match value {
             KValue::Number(n) => match (precision, representation) {
+                // A precision is applied together with the representations that are defined for all
+                // numbers (`?`, `e`, `E`), in the same way as without a representation
+                (Some(precision), Some(StringFormatRepresentation::Debug))
+                    if n.is_f64() || n.is_i64_in_f64_range() =>
+                {
+                    format!("{:.*}", precision as usize, f64::from(n))
+                }
+                (Some(precision), Some(StringFormatRepresentation::ExpLower))
+                    if n.is_f64() || n.is_i64_in_f64_range() =>
+                {
+                    format!("{:.*e}", precision as usize, f64::from(n))
+                }
+                (Some(precision), Some(StringFormatRepresentation::ExpUpper))
+                    if n.is_f64() || n.is_i64_in_f64_range() =>
+                {
+                    format!("{:.*E}", precision as usize, f64::from(n))
+                }
                 // Floats keep their value with the representations that are defined for all numbers
                 (_, Some(StringFormatRepresentation::Debug)) if n.is_f64() => n.to_string(),
                 (_, Some(StringFormatRepresentation::ExpLower)) if n.is_f64() => {
